@@ -26,6 +26,7 @@
 -/
 import EnrVerif.Proofs.MapEffects
 import EnrVerif.Proofs.CodecTheorems
+import EnrVerif.Proofs.Examples
 
 namespace EnrVerif
 
@@ -307,6 +308,134 @@ example :
     (⟨1, pk0, builtContent toy (bld 203) pk0, sig0⟩ : Record).size = 296 := by decide
 
 end C09ex
+
+/-! ### non-vacuity: the hypotheses of the theorems above hold of concrete records and calls
+
+`rBig`, `insZ m`, `pBig`, `bldZ n`, `sig64` are defined in `Proofs/Examples.lean` (toy scheme
+`tinyS` of `Proofs/ToyScheme.lean`; the public key is stored under `"t"`).  Concrete runs of `step`
+and `build` are evaluated by the kernel (`decide +kernel`). -/
+
+section NonVacuity
+set_option maxRecDepth 100000
+
+example : rBig.size = 192 ∧ rBig.sig.length = 64 ∧ rBig.seq = 127 := by decide
+
+/-- `insert("zz", [0; 101])`: the result has exactly 300 bytes and is accepted (`C09_step_size_le`) -/
+example : (step tinyS rBig (insZ 101) pk0 (some sig64)).1 = .ok (.prevRaw none) ∧
+    (step tinyS rBig (insZ 101) pk0 (some sig64)).2.size = 300 ∧
+    (step tinyS rBig (insZ 101) pk0 (some sig64)).2.size ≤ 300 :=
+  have h : step tinyS rBig (insZ 101) pk0 (some sig64) =
+      (.ok (.prevRaw none), (step tinyS rBig (insZ 101) pk0 (some sig64)).2) := by decide +kernel
+  ⟨by decide +kernel, by decide +kernel, C09_step_size_le h⟩
+
+/-- 102 bytes: the pre-signing check (old sequence number: 300 bytes) passes, the final check
+    (301 bytes) refuses.  `C09_refusal_sound` applies and its conclusion is the 301. -/
+example : (step tinyS rBig (insZ 102) pk0 (some sig64)).1 = .err .exceedsMaxSize ∧
+    (∃ p, prepare tinyS rBig (insZ 102) pk0 = .ok p) ∧
+    (⟨newSeq (insZ 102) rBig, nodeIdOf tinyS pk0, newContent tinyS (insZ 102) pk0 rBig.content, sig64⟩
+      : Record).size = 301 ∧
+    (⟨newSeq (insZ 102) rBig, nodeIdOf tinyS pk0, newContent tinyS (insZ 102) pk0 rBig.content, sig64⟩
+      : Record).size > 300 :=
+  have h : (step tinyS rBig (insZ 102) pk0 (some sig64)).1 = .err .exceedsMaxSize := by
+    decide +kernel
+  ⟨h, ⟨pBig, by decide +kernel⟩, by decide +kernel, C09_refusal_sound (by decide) (by decide) h⟩
+
+/-- the same call through `C09_refusal_complete`, `C09_refusal_exact` and `C09_refusal_exact_len`:
+    without the pre-signing check the update gets to the signer, the signed result is too large -/
+example : prepareG tinyS rBig (insZ 102) pk0 false = .ok pBig ∧
+    ({ pBig.enr with sig := sig64 } : Record).size = 301 := by decide +kernel
+
+example : (step tinyS rBig (insZ 102) pk0 (some sig64)).1 = .err .exceedsMaxSize :=
+  C09_refusal_complete (p := pBig) (by decide +kernel) (by decide +kernel)
+
+example : (step tinyS rBig (insZ 102) pk0 (some sig64)).1 = .err .exceedsMaxSize :=
+  (C09_refusal_exact (by decide) (by decide) ⟨pBig, by decide +kernel⟩).2
+    ⟨pBig, by decide +kernel, by decide +kernel⟩
+
+example : ∃ p, prepareG tinyS rBig (insZ 102) pk0 false = .ok p ∧
+    ({ p.enr with sig := sig64 } : Record).size > 300 :=
+  (C09_refusal_exact (by decide) (by decide) ⟨pBig, by decide +kernel⟩).1 (by decide +kernel)
+
+example : (step tinyS rBig (insZ 102) pk0 (some sig64)).1 = .err .exceedsMaxSize :=
+  (C09_refusal_exact_len (p := pBig) (by decide) (by decide) (by decide +kernel)).2
+    (by decide +kernel)
+
+/-- 103 bytes: already the pre-signing check refuses (the signer is never asked) -/
+example : prepare tinyS rBig (insZ 103) pk0 = .error .exceedsMaxSize ∧
+    (⟨newSeq (insZ 103) rBig, nodeIdOf tinyS pk0, newContent tinyS (insZ 103) pk0 rBig.content, sig64⟩
+      : Record).size > 300 :=
+  ⟨by decide +kernel, C09_refusal_sound (by decide) (by decide) (by decide +kernel)⟩
+
+/-- `C09_refusal_precedence_seq_max`: all five hypotheses hold of `rBig` moved to the maximal
+    sequence number (200 bytes) and the insertion of 120 bytes -/
+example : (step tinyS { rBig with seq := 2 ^ 64 - 1 } (insZ 120) pk0 none).1 = .err .exceedsMaxSize ∧
+    prepareG tinyS { rBig with seq := 2 ^ 64 - 1 } (insZ 120) pk0 false = .error .seqTooHigh :=
+  C09_refusal_precedence_seq_max none rfl (by decide +kernel) rfl (by decide +kernel) (by decide)
+
+/-- `C09_no_first_check` / `C09_step_snd_size_le` on a removal -/
+example : prepare tinyS rBig (.removeKey [122]) pk0 = prepareG tinyS rBig (.removeKey [122]) pk0 false :=
+  C09_no_first_check (S := tinyS) rBig (.removeKey [122]) pk0 rfl
+
+example : (step tinyS rBig (.removeKey [122]) pk0 (some sig64)).2.size ≤ 300 :=
+  C09_step_snd_size_le (S := tinyS) rBig (.removeKey [122]) pk0 (some sig64) (by decide)
+
+example : (step tinyS rBig (.removeKey [122]) pk0 (some sig64)).2.size = 81 := by decide +kernel
+
+/-- sizes: monotone in the sequence number, dependent on the signature's length only (unless it is 1),
+    at most two bytes per increment -/
+example : ({ rBig with seq := 5 } : Record).size ≤ ({ rBig with seq := 2 ^ 64 - 1 } : Record).size :=
+  C09_size_mono_seq _ _ rfl rfl (by decide)
+
+example : ({ rBig with seq := 5 } : Record).size = 192 ∧
+    ({ rBig with seq := 2 ^ 64 - 1 } : Record).size = 200 := by decide
+
+example : ({ rBig with sig := List.replicate 64 9 } : Record).size = rBig.size :=
+  C09_size_sig_len _ _ (by decide) (by decide) rfl rfl
+
+example : ({ rBig with seq := rBig.seq + 1 } : Record).size ≤ rBig.size + 2 :=
+  C09_size_bump_le rBig (by decide)
+
+example : ({ rBig with seq := rBig.seq + 1 } : Record).size = 193 := by decide
+
+/-- the toy record `r0`: 18 = 1 (list header) + 5 (signature item) + 1 (sequence number) + 11 (pairs);
+    it comes out of `decode`, so `C09_decode_size_le` applies -/
+example : r0.size ≤ 300 := C09_decode_size_le r0Bytes_decodes
+
+example : r0.size = 18 ∧ (encBytes r0.sig).length = 5 ∧ (encUint r0.seq).length = 1 ∧
+    (Record.pairsBytes r0.content).length = 11 ∧ (encodeHeader true 17).length = 1 := by decide
+
+/-! the builder: `bldZ n` is the empty builder plus `"z" ↦ [0; n]`, signed with 64 bytes -/
+
+/-- 295 bytes: built (`C09_build_size_le`) -/
+example : ∃ r, Builder.build tinyS (bldZ 211) pk0 (some sig64) = .ok r ∧ r.size = 295 ∧ r.size ≤ 297 :=
+  have h : Builder.build tinyS (bldZ 211) pk0 (some sig64) =
+      .ok ⟨1, nodeIdOf tinyS pk0, builtContent tinyS (bldZ 211) pk0, sig64⟩ := by decide +kernel
+  ⟨_, h, by decide, (C09_build_size_le h).1⟩
+
+/-- 296 bytes: refused although within the limit (`C09_build_refusal_exact_64` in both directions,
+    `C09_build_refusal_near_64`, `C09_build_refusal_near`, `C09_build_refusal_near_7`,
+    `C09_build_exceeds_iff`) -/
+example : Builder.build tinyS (bldZ 212) pk0 (some sig64) = .err .exceedsMaxSize ∧
+    (⟨1, nodeIdOf tinyS pk0, builtContent tinyS (bldZ 212) pk0, sig64⟩ : Record).size = 296 := by
+  have hp : Builder.prepare tinyS (bldZ 212) pk0 = .ok ⟨1, builtContent tinyS (bldZ 212) pk0⟩ := by
+    decide +kernel
+  have h := (C09_build_refusal_exact_64 (sig := sig64) (by decide) hp).2 (by decide)
+  have h1 := (C09_build_refusal_exact_64 (by decide) hp).1 h
+  have h2 := C09_build_refusal_near_64 (by decide) hp h
+  have h3 := C09_build_refusal_near hp h
+  have h4 := C09_build_refusal_near_7 (by decide) hp h
+  have h5 := (C09_build_exceeds_iff hp).1 h
+  exact ⟨h, by decide⟩
+
+/-- 301 bytes: refused, as it must be (`C09_build_refuses_over`, `C09_build_refuses_over'`) -/
+example : Builder.build tinyS (bldZ 217) pk0 (some sig64) = .err .exceedsMaxSize ∧
+    (∀ r, Builder.build tinyS (bldZ 217) pk0 (some sig64) ≠ .ok r) ∧
+    (⟨1, nodeIdOf tinyS pk0, builtContent tinyS (bldZ 217) pk0, sig64⟩ : Record).size = 301 := by
+  have hp : Builder.prepare tinyS (bldZ 217) pk0 = .ok ⟨1, builtContent tinyS (bldZ 217) pk0⟩ := by
+    decide +kernel
+  exact ⟨C09_build_refuses_over hp (by decide), C09_build_refuses_over' (by decide), by decide⟩
+
+end NonVacuity
 
 /-! ### Axioms -/
 
